@@ -246,6 +246,9 @@ func genCase(r *hx.Rng, tier string) []op {
 		if !quietCase && r.Chance(8) { // notice handled before the tick of its slot
 			ops = append(ops, notice(s))
 		}
+		if !quietCase && r.Chance(1) { // a TICK handled late: a notice of a later slot is handled before it
+			ops = append(ops, notice(s+1+uint64(r.Intn(int(g.spe)))))
+		}
 		clock := s
 		switch x := r.Intn(100); {
 		case x < 3 && s > 0:
